@@ -105,6 +105,31 @@ class Runner:
             out[idx] = k["py"](*[(int(b[idx]) if np.issubdtype(b.dtype, np.integer) else float(b[idx])) for b in bs])
         return out
 
+    def fresh_int_first(self, name, iargs, jsonargs=None):
+        """re-decorate the kernel's own Python definition with its own options and make the integer signature the first one it compiles"""
+        import numba
+        k = self.K[name]
+        if not k["ufunc"]: return
+        variant = "all-int64-first-signature"
+        self.done.setdefault(name, set()).add(variant)
+        opts = {o: v for o, v in k["opts"].items() if o in ("nopython", "fastmath", "forceobj", "boundscheck")}
+        try:
+            with np.errstate(all="ignore"):
+                fresh = numba.vectorize(cache=True, **opts)(k["py"])
+                c = np.asarray(fresh(*iargs), dtype=float)
+                p = np.asarray(self.call_py(name, iargs), dtype=float)
+        except Exception as e:
+            self.viol(name, variant, f"integer specialisation fails: {type(e).__name__}: {str(e)[:200]}", jsonargs); return
+        self.ctx.evaluations += 1; self.ctx.count("fresh_int_first")
+        both_bad = ~np.isfinite(c) & ~np.isfinite(p)
+        with np.errstate(all="ignore"):
+            bad = ~both_bad & ~(np.abs(c - p) <= 1e-9 * np.maximum(np.abs(c), np.abs(p)) + 1e-300)
+            if name in ("clog_ei", "clog_ii"):       # logarithms of ratios: absolute 1e-9 of the documented constant
+                bad = ~both_bad & ~(np.abs(c - p) <= 1e-9 * 25)
+        if np.any(bad):
+            i = int(np.argmax(bad))
+            self.viol(name, variant, f"compiled for integer arguments first: {c.ravel()[i]!r}, interpreted: {p.ravel()[i]!r} at {[a.ravel()[i].item() for a in np.broadcast_arrays(*iargs)]}", jsonargs)
+
     def pair(self, name, variant, args, scale=None, jsonargs=None, rtol=RTOL):
         """dispatcher vs py_func on one call variant; returns the dispatcher's output (or None)"""
         ctx = self.ctx
@@ -191,6 +216,12 @@ def do_plasma(R, rng, n):
         icol = [np.maximum(np.round(np.minimum(c, 1e15)), 1).astype(np.int64) if kd not in ("q", "q1") else np.round(c).astype(np.int64) for c, kd in zip(cols, kinds)]
         R.pair(name, "all-int64", tuple(icol), scale=None if name not in ("clog_ei", "clog_ii", "ion_coll_rate", "coulomb_xs", "spitzer_heating") else
                [np.atleast_1d(c15.clog_scale(name, [c.astype(float) for c in icol], np.asarray(R.K[name]["obj"](*icol), dtype=float), pl))], jsonargs=[c[:6] for c in icol])
+        # the same integer call on a *fresh* dispatcher that has no float loop yet: numpy's loop search lets a ufunc that already owns a
+        # float64 loop serve integer arrays by casting them, which hides whatever the integer specialisation of the kernel would compute
+        # (magnitudes kept below 1e12 so that products of three integer arguments stay inside int64: wrap-around of fixed-width
+        #  integers versus CPython's unbounded ones is a property of the integer type, not a disagreement of the two definitions)
+        icol_s = [np.minimum(c, 10 ** 12) for c in icol]
+        R.fresh_int_first(name, tuple(icol_s), jsonargs=[c[:6] for c in icol_s])
         # pivot on the 1-D float variant
         with np.errstate(all="ignore"):
             impl = np.asarray(R.K[name]["obj"](*cols), dtype=float)
